@@ -280,6 +280,14 @@ func (a *VSA) eval(v ssa.Value, t tuple, depth int) (int64, bool) {
 			}
 		}
 	}
+	if p, isParam := v.(*ssa.Parameter); isParam && a.B.Bind != nil {
+		// a parameter bound to an argument term of the call under analysis: the value of that term over the tracked quantities
+		if bt := a.B.Bind[p]; bt != nil {
+			if r, ok := a.evalTerm(bt, t, 0); ok {
+				return r, true
+			}
+		}
+	}
 	if a.Derived != nil && isCallLike(v) {
 		if r, ok := a.Derived(a.B.Of(v, nil), t); ok {
 			return r, true
@@ -415,6 +423,48 @@ func (a *VSA) eval(v ssa.Value, t tuple, depth int) (int64, bool) {
 			sub.Tracked = append(sub.Tracked, (&Term{Op: "param", Idx: i}).String())
 		}
 		return sub.eval(ret.Results[0], args, depth+1)
+	}
+	return 0, false
+}
+
+// evalTerm evaluates an integer term built from constants, tracked quantities and arithmetic.
+func (a *VSA) evalTerm(x *Term, t tuple, depth int) (int64, bool) {
+	if x == nil || depth > 12 {
+		return 0, false
+	}
+	if k, ok := x.Int(); ok {
+		return k, true
+	}
+	s := x.String()
+	for i, tr := range a.Tracked {
+		if s == tr {
+			return t[i], true
+		}
+	}
+	if x.Op == "bin" && len(x.Args) == 2 {
+		l, ok1 := a.evalTerm(x.Args[0], t, depth+1)
+		r, ok2 := a.evalTerm(x.Args[1], t, depth+1)
+		if !ok1 || !ok2 {
+			return 0, false
+		}
+		switch x.Name {
+		case "+":
+			return l + r, true
+		case "-":
+			return l - r, true
+		case "*":
+			return l * r, true
+		case "/":
+			if r == 0 {
+				return 0, false
+			}
+			return l / r, true
+		case "%":
+			if r == 0 {
+				return 0, false
+			}
+			return l % r, true
+		}
 	}
 	return 0, false
 }
